@@ -220,7 +220,11 @@ CLAIMED = {
              'callback builds; callbacks exist and build through the '
              'parser\'s own language; modelchecks default to their own '
              'parser; Parser.__call__ translates exactly lark\'s two '
-             'exception classes into the positioned package errors.',
+             'exception classes into the positioned package errors; the '
+             'leaf constructors the callbacks call (AtomicProposition on '
+             'token text, Bool) have no raising path for a str / bool '
+             'argument; each grammar is conflict-free (canonical LR(1)), so '
+             'lark parses it as written.',
         ref='3-C10',
         note='trusted: lark raises only UnexpectedToken / '
              'UnexpectedCharacters on malformed input; the value of pos '
@@ -262,7 +266,10 @@ CLAIMED = {
              'is emitted exactly under lowlink[v] == disc[v]; on emission '
              'the root and every popped node are yielded and closed and the '
              'pop loop compares discovery times; a non-root is pushed; the '
-             'argument is not modified. Breaking any of them gives a wrong '
+             'argument is not modified; the yielded list is not used by the '
+             'generator after the yield (use-after analysis); the DiGraph '
+             'mutators keep every edge end registered as a node and nodes '
+             'are never ordered or sorted in graph.py. Breaking any of them gives a wrong '
              'partition on some graph and insertion order. NOT decided: '
              'that these conditions suffice (partition and mutual '
              'reachability for every digraph).',
@@ -324,7 +331,10 @@ CLAIMED = {
              'its extracted rule agrees with the Clarke-Grumberg-Peled fair '
              'semantics on all small (K,F); (3) alphabet typestate of the '
              'formula handed to the LTL tableau under fairness; (5) F=None '
-             'runs no fairness code, F given labels a clone. Seven genuine '
+             'runs no fairness code, F given labels a clone; (6) the effect '
+             'summary of get_fair_states writes nothing reachable from K or '
+             'F and its result is an object of its own; the clone that '
+             'receives the fair label shares no label set with K. Seven genuine '
              'defects are listed as known findings (inverted fair-SCC '
              'predicate; inexact fair EG/AF/AU/ER and CTL*/LTL reductions).',
         ref='3-C15',
@@ -348,7 +358,9 @@ CLAIMED = {
              'allocates; node fields are written only by the reset routine '
              'called from the constructors; registries are WeakSets; node '
              '==/hash are identity; OBDD equality is root identity plus '
-             'ordering equality. Each clause is necessary for "one node per '
+             'ordering equality; memo tables are allocated per top-level '
+             'operation and no table keyed by id() of a node outlives a '
+             'call. Each clause is necessary for "one node per '
              'triple" under every creation history.',
         ref='3-C16',
         note='trusted: WeakSet iteration yields exactly the live parents; '
@@ -396,7 +408,9 @@ CLAIMED = {
              'children, including its conditional parenthesisation) use '
              'only tokens of the parser\'s case table and every embedded '
              'child keeps its meaning when the composed template text is '
-             'read by Python\'s grammar. Three genuine defects found and '
+             'read by Python\'s grammar; the ordering object keeps no '
+             'reference to the list it was built from and get_list() hands '
+             'out a copy (the lambda header of str(o) comes from it). Three genuine defects found and '
              'repaired (fix: commits).',
         ref='3-C18',
         note='trusted: ast field types (Name.id, arg.arg: str; id(): int); '
